@@ -30,6 +30,9 @@ Proof.
   induction l1 as [|l t IH]; intros l2 s; cbn; auto. destruct (step s l); auto.
 Qed.
 
+Lemma run_strict_step : forall s l s' ls, step s l = Some s' -> run_strict s (l :: ls) = run_strict s' ls.
+Proof. intros s l s' ls H. cbn [C19.run_strict]. now rewrite H. Qed.
+
 Lemma run_strict_run : forall l s s', run_strict s l = Some s' -> run s l = s'.
 Proof.
   induction l as [|l t IH]; intros s s' H; [cbn in *; congruence|].
@@ -299,6 +302,52 @@ Proof.
   apply Nat.ltb_lt in Hj. rewrite Hj, V, Nc, (valid_none _ p j _ Np). cbn. reflexivity.
 Qed.
 
+Lemma serve_step : forall t p x j b M,
+  p_up P (peers P t p) = true -> honest P (peers P t p) = true ->
+  has_conn (p_conns P (peers P t p)) x = true ->
+  msgs P t = M ++ [MReq x p j] -> (forall m, In m M -> between P x p m = false) ->
+  j < n -> is_complete (p_st P (peers P t p) j) = true -> p_dat P (peers P t p) j = Some b ->
+  exists t', step t (Serve p x j) = Some t'
+    /\ (forall y, y <> p -> peers P t' y = peers P t y) /\ msgs P t' = M ++ [MPay p x j b].
+Proof.
+  intros t p x j b M U H C Hm Hf Hj Hc Hd. cbn [C19.step]. rewrite U, H, C, Hm. cbn [andb].
+  rewrite (take_first_snoc _ (is_req P x p j) M (MReq x p j)).
+  2:{ intros m Hin. destruct (is_req P x p j m) eqn:E; auto. apply is_req_between in E. rewrite (Hf m Hin) in E. discriminate. }
+  2:{ cbn. now rewrite !Nat.eqb_refl. }
+  apply Nat.ltb_lt in Hj. rewrite Hj, Hc, Hd. cbn [andb]. eexists. split; [reflexivity|]. cbn. split; auto.
+  intros y Hy. now rewrite upd_other.
+Qed.
+
+Lemma recvbegin_step : forall t x p j b M,
+  p_up P (peers P t x) = true -> honest P (peers P t x) = true ->
+  has_conn (p_conns P (peers P t x)) p = true ->
+  msgs P t = M ++ [MPay p x j b] -> (forall m, In m M -> between P x p m = false) ->
+  len_ok P plen g j b = true -> p_st P (peers P t x) j = Empty ->
+  exists t', step t (RecvBegin x p j) = Some t'
+    /\ p_up P (peers P t' x) = true /\ p_st P (peers P t' x) j = Dirty
+    /\ p_wr P (peers P t' x) = p_wr P (peers P t x) ++ [mkwrt P j p b].
+Proof.
+  intros t x p j b M U H C Hm Hf Hl He. cbn [C19.step]. rewrite U, H, C, Hm. cbn [andb].
+  rewrite (take_first_snoc _ (is_pay P p x j) M (MPay p x j b)).
+  2:{ intros m Hin. destruct (is_pay P p x j m) eqn:E; auto. apply is_pay_between in E. rewrite (Hf m Hin) in E. discriminate. }
+  2:{ cbn. now rewrite !Nat.eqb_refl. }
+  rewrite Hl, He. eexists. split; [reflexivity|]. cbn. rewrite upd_same. cbn. rewrite upd_same. auto.
+Qed.
+
+Lemma recvend_step : forall t x p j b W,
+  p_up P (peers P t x) = true -> p_st P (peers P t x) j = Dirty ->
+  p_wr P (peers P t x) = W ++ [mkwrt P j p b] -> (forall w, In w W -> w_piece P w <> j) ->
+  sum_ok P sum g j b = true ->
+  exists t', step t (RecvEnd x j) = Some t' /\ verified P t' x j = true.
+Proof.
+  intros t x p j b W U Hd Hw Hf Hs. cbn [C19.step]. rewrite U, Hd, Hw. cbn [is_dirty andb].
+  rewrite (take_first_snoc _ (fun w => Nat.eqb (w_piece P w) j) W (mkwrt P j p b)).
+  2:{ intros w Hin. apply Nat.eqb_neq. auto. }
+  2:{ cbn. apply Nat.eqb_refl. }
+  cbn [w_data]. rewrite Hs. eexists. split; [reflexivity|]. unfold verified. cbn. rewrite upd_same. cbn.
+  now rewrite upd_same.
+Qed.
+
 Lemma final_steps : forall t cn,
   i < n -> Ph t ->
   find_conn (p_conns P (peers P t a)) sd = Some cn -> c_view cn i = true ->
@@ -313,46 +362,152 @@ Proof.
   destruct HP as [HI Ua Ha Us Hs Full Emp].
   assert (Nc : is_complete (p_st P (peers P t a) i) = false) by now rewrite Emp.
   destruct HI as [HPI HMI].
-  (* the seeder's bytes of piece i *)
   pose proof (Full i Hi) as Fi.
   destruct (pi_data _ _ _ _ _ (HPI sd) i Fi) as [_ Hd].
   destruct (nth_error blob i) as [b|] eqn:Eb; [|apply nth_error_None in Eb; unfold npieces in Hi; lia].
-  cbn [C19.run_strict C19.step].
   (* Request *)
-  rewrite (do_request_single t a sd i cn Ua Ha Hcn Hnp Hi Hv Nc).
-  set (xa := set_reqs P (peers P t a) (p_reqs P (peers P t a) ++ [mkreq i sd RPending])).
+  pose proof (do_request_single t a sd i cn Ua Ha Hcn Hnp Hi Hv Nc) as E1.
+  set (t1 := mkstate P (upd (peers P t) a (set_reqs P (peers P t a) (p_reqs P (peers P t a) ++ [mkreq i sd RPending])))
+                       (msgs P t ++ [MReq a sd i])) in E1.
+  assert (Hsd1 : peers P t1 sd = peers P t sd) by (cbn; apply upd_other; auto).
+  assert (Ha1 : peers P t1 a = set_reqs P (peers P t a) (p_reqs P (peers P t a) ++ [mkreq i sd RPending]))
+    by (cbn; apply upd_same).
   (* Serve *)
-  cbn [peers msgs].
-  assert (Hsd1 : upd (peers P t) a xa sd = peers P t sd) by (apply upd_other; auto).
-  rewrite Hsd1, Us, Hs, Hsa. cbn [andb].
-  rewrite (take_first_snoc _ (is_req P a sd i) (msgs P t) (MReq a sd i)).
-  2:{ intros m Hm. destruct (is_req P a sd i m) eqn:E; auto. apply is_req_between in E. rewrite (Hnm m Hm) in E. discriminate. }
-  2:{ cbn. now rewrite !Nat.eqb_refl. }
-  apply Nat.ltb_lt in Hi. rewrite Hi, Fi, Hd. cbn [andb peers msgs].
+  destruct (serve_step t1 sd a i b (msgs P t)) as (t2 & E2 & O2 & M2); try rewrite Hsd1; auto.
   (* RecvBegin *)
-  set (ysd := set_conns P (peers P t sd) (view_set (p_conns P (peers P t sd)) a i)).
-  assert (Ha2 : upd (upd (peers P t) a xa) sd ysd a = xa).
-  { rewrite upd_other by auto. apply upd_same. }
-  rewrite Ha2. unfold xa at 1 2 3. cbn [p_up honest p_kind set_reqs p_conns].
-  fold (honest P (peers P t a)). rewrite Ua, Ha, (find_conn_has _ _ _ Hcn). cbn [andb].
-  rewrite (take_first_snoc _ (is_pay P sd a i) (msgs P t) (MPay sd a i b)).
-  2:{ intros m Hm. destruct (is_pay P sd a i m) eqn:E; auto. apply is_pay_between in E. rewrite (Hnm m Hm) in E. discriminate. }
-  2:{ cbn. now rewrite !Nat.eqb_refl. }
-  assert (Hl : len_ok P plen g i b = true) by (unfold len_ok; rewrite Eb; apply N.eqb_refl).
-  rewrite Hl. unfold xa at 1. cbn [p_st set_reqs]. rewrite Emp.
+  assert (Ha2 : peers P t2 a = peers P t1 a) by (apply O2; auto).
+  destruct (recvbegin_step t2 a sd i b (msgs P t)) as (t3 & E3 & U3 & D3 & W3);
+    try rewrite Ha2; try rewrite Ha1; cbn [p_up honest p_kind p_conns p_st set_reqs]; auto.
+  { eapply find_conn_has; eauto. }
+  { unfold len_ok. rewrite Eb. apply N.eqb_refl. }
   (* RecvEnd *)
-  cbn [peers msgs]. rewrite upd_same. cbn [p_up p_st p_wr]. unfold xa at 1. cbn [p_up set_reqs].
-  rewrite Ua, upd_same. cbn [is_dirty andb].
-  unfold xa at 1. cbn [p_wr set_reqs].
-  rewrite (take_first_snoc _ (fun w => Nat.eqb (w_piece P w) i) (p_wr P (peers P t a)) (mkwrt P i sd b)).
-  2:{ intros w Hw. destruct (Nat.eqb (w_piece P w) i) eqn:E; auto. apply Nat.eqb_eq in E.
-      pose proof (pi_dirty _ _ _ _ _ (HPI a) w Hw) as Dw. rewrite E, Emp in Dw. discriminate. }
-  2:{ cbn. apply Nat.eqb_refl. }
-  cbn [w_data].
-  assert (Hs2 : sum_ok P sum g i b = true).
+  rewrite Ha2, Ha1 in W3. cbn [p_wr set_reqs] in W3.
+  destruct (recvend_step t3 a sd i b (p_wr P (peers P t a))) as (t4 & E4 & V4); auto.
+  { intros w Hw E. pose proof (pi_dirty _ _ _ _ _ (HPI a) w Hw) as Dw. rewrite E, Emp in Dw. discriminate. }
   { unfold sum_ok. rewrite Hsums, nth_error_map, Eb. cbn. apply N.eqb_refl. }
-  rewrite Hs2. eexists. split; [reflexivity|]. unfold verified. cbn [peers]. rewrite upd_same. cbn [p_st].
-  now rewrite upd_same.
+  exists t4.
+  rewrite (run_strict_step t (Request a sd [i] 1) t1 _ E1).
+  rewrite (run_strict_step t1 _ t2 _ E2), (run_strict_step t2 _ t3 _ E3), (run_strict_step t3 _ t4 _ E4).
+  auto.
+Qed.
+
+(* ---- stage 0: a write of piece i that is under way is finished *)
+Lemma take_first_some : forall A (f : A -> bool) l w, In w l -> f w = true -> take_first f l <> None.
+Proof.
+  intros A f l w Hw Fw E. rewrite (take_first_none _ _ _ E w Hw) in Fw. discriminate.
+Qed.
+
+Lemma recvend_any : forall t x j,
+  p_up P (peers P t x) = true -> is_dirty (p_st P (peers P t x) j) = true ->
+  (exists w, In w (p_wr P (peers P t x)) /\ w_piece P w = j) ->
+  exists t', step t (RecvEnd x j) = Some t'
+    /\ (forall y, y <> x -> peers P t' y = peers P t y)
+    /\ p_up P (peers P t' x) = true /\ p_kind P (peers P t' x) = p_kind P (peers P t x)
+    /\ (is_complete (p_st P (peers P t' x) j) = true \/ p_st P (peers P t' x) j = Empty).
+Proof.
+  intros t x j U D (w & Hw & Hj). cbn [C19.step]. rewrite U, D. cbn [andb].
+  destruct (take_first (fun w0 => Nat.eqb (w_piece P w0) j) (p_wr P (peers P t x))) as [[v rest]|] eqn:T.
+  - destruct (sum_ok P sum g j (w_data P v)); eexists; (split; [reflexivity|]); cbn;
+      rewrite upd_same; cbn; rewrite upd_same; (split; [intros y Hy; now rewrite upd_other|]); auto.
+  - exfalso. eapply take_first_some; eauto. cbn. rewrite Hj. apply Nat.eqb_refl.
+Qed.
+
+Lemma phase0 : forall s,
+  Inv s -> p_up P (peers P s a) = true -> honest P (peers P s a) = true ->
+  p_up P (peers P s sd) = true -> honest P (peers P s sd) = true -> completed P s sd = true ->
+  i < n -> verified P s a i = false ->
+  exists s0, run_strict s (if is_dirty (p_st P (peers P s a) i) then [RecvEnd a i] else []) = Some s0
+    /\ (is_complete (p_st P (peers P s0 a) i) = true \/ Ph s0).
+Proof.
+  intros s HI Ua Ha Us Hs Cs Hi V. unfold verified, completed in *.
+  assert (Full : forall j, j < n -> is_complete (p_st P (peers P s sd) j) = true).
+  { intros j Hj. apply (pi_comm _ _ _ _ _ (proj1 HI sd) Cs j Hj). }
+  assert (Hne : a <> sd). { intros E. rewrite E in V. rewrite (Full i Hi) in V. discriminate. }
+  destruct (is_dirty (p_st P (peers P s a) i)) eqn:D.
+  - destruct (recvend_any s a i Ua D (pi_owner _ _ _ _ _ (proj1 HI a) Ua i D)) as (t' & E & O & U' & K' & R).
+    exists t'. cbn [C19.run_strict]. rewrite E. split; [reflexivity|]. destruct R as [R|R]; [now left|right].
+    constructor; auto.
+    + eapply step_inv; eauto. constructor.
+    + unfold honest in *. now rewrite K'.
+    + rewrite (O sd); auto.
+    + rewrite (O sd); auto.
+    + intros j Hj. rewrite (O sd); auto.
+  - exists s. split; [reflexivity|]. right. constructor; auto.
+    destruct (p_st P (peers P s a) i); auto; discriminate.
+Qed.
+
+Lemma stage_spec : forall s0 (acc : list label * state) f t',
+  run_strict s0 (fst acc) = Some (snd acc) -> run_strict (snd acc) (f (snd acc)) = Some t' ->
+  run_strict s0 (fst (stage P plen sum g acc f)) = Some (snd (stage P plen sum g acc f))
+  /\ snd (stage P plen sum g acc f) = t'.
+Proof.
+  intros s0 acc f t' H1 H2. unfold stage. cbn [fst snd]. rewrite run_strict_app, H1, H2.
+  rewrite (run_strict_run _ _ _ H2). auto.
+Qed.
+
+Theorem plan_works : forall s,
+  Inv s -> p_up P (peers P s a) = true -> honest P (peers P s a) = true ->
+  p_up P (peers P s sd) = true -> honest P (peers P s sd) = true -> completed P s sd = true ->
+  i < n -> verified P s a i = false ->
+  exists s', run_strict s (plan P plen sum g s a sd i) = Some s' /\ verified P s' a i = true.
+Proof.
+  intros s HI Ua Ha Us Hs Cs Hi V.
+  destruct (phase0 s HI Ua Ha Us Hs Cs Hi V) as (s0 & R0 & D).
+  unfold plan. rewrite (run_strict_run _ _ _ R0).
+  destruct D as [Dn|HP0].
+  { rewrite Dn. exists s0. split; auto. }
+  rewrite (ph_empty _ HP0). cbn [is_complete].
+  pose proof (Ph_neq _ Hi HP0) as Hne.
+  set (l0 := if is_dirty (p_st P (peers P s a) i) then [RecvEnd a i] else []) in *.
+  (* stage 1: a forgets sd *)
+  destruct (disc_stage s0 a sd HP0 (ph_upa _ HP0)) as (t1 & R1 & HP1 & Q1 & O1 & _ & _).
+  match goal with |- context [stage P plen sum g (l0, s0) ?f] =>
+    destruct (stage_spec s (l0, s0) f t1 R0 R1) as [A1 B1]; set (acc1 := stage P plen sum g (l0, s0) f) in * end.
+  (* stage 2: sd forgets a *)
+  destruct (disc_stage t1 sd a HP1 (ph_upsd _ HP1)) as (t2 & R2 & HP2 & Q2 & O2 & _ & _).
+  rewrite <- B1 in R2.
+  match goal with |- context [stage P plen sum g acc1 ?f] =>
+    destruct (stage_spec s acc1 f t2 A1 R2) as [A2 B2]; set (acc2 := stage P plen sum g acc1 f) in * end.
+  assert (Q1' : has_conn (p_conns P (peers P t2 a)) sd = false) by (rewrite O2; auto).
+  (* stage 3: room at a *)
+  destruct (cap_stage t2 a HP2 (ph_upa _ HP2)) as (t3 & R3 & HP3 & L3 & O3 & S3).
+  rewrite <- B2 in R3.
+  match goal with |- context [stage P plen sum g acc2 ?f] =>
+    destruct (stage_spec s acc2 f t3 A2 R3) as [A3 B3]; set (acc3 := stage P plen sum g acc2 f) in * end.
+  assert (Q1'' : has_conn (p_conns P (peers P t3 a)) sd = false).
+  { destruct (has_conn (p_conns P (peers P t3 a)) sd) eqn:E; auto. apply S3 in E. congruence. }
+  assert (Q2' : has_conn (p_conns P (peers P t3 sd)) a = false) by (rewrite O3; auto).
+  (* stage 4: room at sd *)
+  destruct (cap_stage t3 sd HP3 (ph_upsd _ HP3)) as (t4 & R4 & HP4 & L4 & O4 & S4).
+  rewrite <- B3 in R4.
+  match goal with |- context [stage P plen sum g acc3 ?f] =>
+    destruct (stage_spec s acc3 f t4 A3 R4) as [A4 B4]; set (acc4 := stage P plen sum g acc3 f) in * end.
+  assert (Q1c : has_conn (p_conns P (peers P t4 a)) sd = false) by (rewrite O4; auto).
+  assert (L3' : length (p_conns P (peers P t4 a)) < g_maxconn P g) by (rewrite O4; auto).
+  assert (Q2c : has_conn (p_conns P (peers P t4 sd)) a = false).
+  { destruct (has_conn (p_conns P (peers P t4 sd)) a) eqn:E; auto. apply S4 in E. congruence. }
+  (* stage 5: connect *)
+  destruct (conn_step t4 Hne (ph_upa _ HP4) (ph_upsd _ HP4) Q1c Q2c L3' L4) as (t5 & E5 & Ca5 & Cs5 & Rq5 & M5).
+  assert (R5 : run_strict t4 [Connect a sd []] = Some t5) by (cbn [C19.run_strict]; now rewrite E5).
+  assert (HP5 : Ph t5) by (eapply Ph_bk; eauto; reflexivity).
+  rewrite <- B4 in R5.
+  destruct (stage_spec s acc4 (fun _ => [Connect a sd []]) t5 A4 R5) as [A5 B5].
+  set (acc5 := stage P plen sum g acc4 (fun _ => [Connect a sd []])) in *.
+  (* stage 6: every request times out *)
+  destruct (expire_stage (p_reqs P (peers P t5 a)) t5 HP5) as (t6 & R6 & HP6 & Rq6 & Cn6 & O6 & M6).
+  rewrite <- B5 in R6.
+  match goal with |- context [stage P plen sum g acc5 ?f] =>
+    destruct (stage_spec s acc5 f t6 A5 R6) as [A6 B6]; set (acc6 := stage P plen sum g acc5 f) in * end.
+  (* the transfer *)
+  set (cn := mkconn sd (p_origin P (peers P t4 sd)) (shown P (peers P t4 sd) [])) in *.
+  destruct (final_steps t6 cn Hi HP6) as (t7 & R7 & V7).
+  - rewrite Cn6, Ca5. apply find_conn_snoc; auto.
+  - unfold cn. cbn [c_view]. unfold shown. rewrite (ph_hsd _ HP4). unfold bitfield. apply (ph_full _ HP4 i Hi).
+  - rewrite (O6 sd) by auto. rewrite Cs5, has_conn_app. cbn. rewrite Nat.eqb_refl. apply orb_true_r.
+  - intros m Hm. rewrite M6, M5 in Hm. apply filter_In in Hm as [_ Hm]. now apply negb_true_iff in Hm.
+  - intros r Hr. rewrite Rq6 in Hr. destruct (is_pending r) eqn:Pd; auto.
+    destruct (expire_all_pending _ _ _ Hr Pd) as [Hin Hno]. exfalso. apply (Hno r Hin). auto.
+  - exists t7. rewrite run_strict_app, A6, B6. auto.
 Qed.
 
 End Prog.
